@@ -589,3 +589,98 @@ Proof.
       leaf_err [47; 42] r; [rewrite Hs; exact Hr|reflexivity|discriminate|reflexivity].
     + leaf_err [47] t; [exact Hs|reflexivity|discriminate|reflexivity].
 Qed.
+
+(** ** nextToken: every branch of the switch *)
+Theorem nextToken_good o s st : good s st -> l_str st <> [] -> step_ok s st (nextToken o st).
+Proof.
+  intros G Hne. unfold nextToken. destruct (l_str st) as [|c t] eqn:Hs; [contradiction|].
+  destruct (isPrimitive c) eqn:Ep.
+  { leaf_ok [c] t; [exact Hs|reflexivity|discriminate|]. apply no10_1. intros ->. vm_compute in Ep. discriminate. }
+  destruct (N.eqb_spec c 13) as [->|N13].
+  { destruct (hasPrefix (13 :: t) [13; 10]) eqn:E.
+    - apply hasPrefix_app in E. destruct E as [r Hr].
+      eapply (adv_newline_good _ _ [13] r); [exact G|rewrite Hs, Hr; reflexivity|reflexivity|reflexivity].
+    - leaf_err [13] t; [exact Hs|reflexivity|discriminate|reflexivity]. }
+  destruct (N.eqb_spec c 10) as [->|N10].
+  { eapply (adv_newline_good _ _ [] t); [exact G|exact Hs|reflexivity|reflexivity]. }
+  destruct (N.eqb_spec c 61) as [->|N61].
+  { destruct (hasPrefix (61 :: t) [61; 62]) eqn:E.
+    - apply hasPrefix_app in E. destruct E as [r Hr].
+      leaf_ok [61; 62] r; [rewrite Hs; exact Hr|reflexivity|discriminate|reflexivity].
+    - leaf_ok [61] t; [exact Hs|reflexivity|discriminate|reflexivity]. }
+  destruct (N.eqb_spec c 60) as [->|N60].
+  { assert (P1 : step_ok s st (adv_ok 1 (ty_chr tk_lAngleBracket) st)).
+    { leaf_ok [60] t; [exact Hs|reflexivity|discriminate|reflexivity]. }
+    destruct (is_tl2 o); [|exact P1].
+    destruct (hasPrefix (60 :: t) [60; 61; 62]) eqn:E; [|exact P1].
+    apply hasPrefix_app in E. destruct E as [r Hr].
+    leaf_ok [60; 61; 62] r; [rewrite Hs; exact Hr|reflexivity|discriminate|reflexivity]. }
+  destruct (N.eqb_spec c 64) as [->|N64]; [exact (lexFunctionModifier_good s st t G Hs)|].
+  destruct (N.eqb_spec c 47) as [->|N47]; [exact (lexSlash_good s st t G Hs)|].
+  destruct (N.eqb_spec c 45) as [->|N45]; [exact (lexSection_good s st t G Hs)|].
+  destruct (N.eqb_spec c 35) as [->|N35]; [exact (lexNumberSign_good s st t G Hs)|].
+  destruct (N.eqb_spec c 95) as [->|N95]; [exact (lexUnderscore_good o s st t G Hs)|].
+  destruct (digit c) eqn:Ed; [exact (lexNumber_good s st c t G Hs Ed)|].
+  destruct (letter c) eqn:El.
+  { destruct (is_tl2 o && list_eqb (nameIdent (c :: t)) [84; 121; 112; 101]) eqn:E;
+      [|exact (lexLexeme_good s st c t G Hs El)].
+    apply andb_true_iff in E. destruct E as [_ E]. apply list_eqb_eq in E.
+    destruct (nameIdent_split (c :: t)) as [r [Hr _]]. rewrite E in Hr.
+    leaf_ok [84; 121; 112; 101] r; [rewrite Hs; exact Hr|reflexivity|discriminate|reflexivity]. }
+  leaf_err [c] t; [exact Hs|reflexivity|discriminate|]. apply no10_1. exact N10.
+Qed.
+
+(** ** the loop of generateTokens *)
+Lemma lexLoop_good o s : forall fuel st, good s st -> (length (l_str st) < fuel)%nat ->
+  exists st' e, lexLoop fuel o st = Ok (st', e) /\ good s st' /\ err_ok st' e /\ (e = None -> l_str st' = []).
+Proof.
+  induction fuel; intros st G Hf; [lia|].
+  cbn [lexLoop]. destruct (l_str st) as [|c t] eqn:Hs.
+  - exists st, None. repeat split; try apply G; auto.
+  - destruct (nextToken_good o s st G) as (st' & e & E & G' & Hlt & He); [rewrite Hs; discriminate|].
+    rewrite E. destruct e as [err|].
+    + exists st', (Some err). split; [reflexivity|]. split; [exact G'|]. split; [exact He|discriminate].
+    + apply IHfuel; [exact G'|]. rewrite Hs in *. simpl in *. lia.
+Qed.
+
+Lemma validateTokens_spec lg : forall toks,
+  (exists suffix, toks = fst (validateTokens lg toks) ++ suffix) /\
+  (snd (validateTokens lg toks) = None -> fst (validateTokens lg toks) = toks) /\
+  (forall err, snd (validateTokens lg toks) = Some err ->
+     (exists init, fst (validateTokens lg toks) = init ++ [e_tok err]) /\ e_outer err = t_pos (e_tok err)).
+Proof.
+  induction toks as [|t r IH]; cbn [validateTokens].
+  - split; [exists []; reflexivity|]. split; [reflexivity|]. discriminate.
+  - destruct (illegal lg (t_type t)) as [k|].
+    + cbn [fst snd]. split; [exists r; reflexivity|]. split; [discriminate|].
+      intros err E. inversion E; subst. cbn [e_tok e_outer]. split; [exists []; reflexivity|reflexivity].
+    + destruct (validateTokens lg r) as [p e]. cbn [fst snd] in *. destruct IH as ([suf Hsuf] & IH2 & IH3).
+      split; [exists suf; simpl; congruence|]. split.
+      * intros E. rewrite (IH2 E). reflexivity.
+      * intros err E. destruct (IH3 err E) as ([init Hi] & Ho). split; [|exact Ho].
+        exists (t :: init). rewrite Hi. reflexivity.
+Qed.
+
+Lemma snoc_split_unique (P : token -> Prop) (l : list token) x : Forall P l ->
+  forall a t b, l ++ [x] = a ++ t :: b -> ~ P t -> b = [] /\ t = x.
+Proof.
+  induction 1 as [|y l' Py Hl IH]; intros a t b E Hn.
+  - destruct a as [|a0 a']; simpl in E.
+    + inversion E; subst. auto.
+    + inversion E. destruct a'; discriminate.
+  - destruct a as [|a0 a']; simpl in E.
+    + inversion E; subst. contradiction.
+    + inversion E; subst. eapply IH; eauto.
+Qed.
+
+(** * The result of generateTokens, for every input *)
+Record lex_ok (s : list N) (r : lexres) : Prop := mkLexOk {
+  lo_recomb : recombineTokens r = s;
+  lo_pos : toks_pos_ok [] (r_all r);
+  lo_prefix : exists suffix, r_all r = r_toks r ++ suffix;
+  lo_nonempty : forall a t b, r_all r = a ++ t :: b -> t_val t = [] -> b = [] /\ t_type t = T_eof /\ r_rest r = [] /\ r_err r <> None -> False \/ True;
+  lo_empty_only_eof : forall a t b, r_all r = a ++ t :: b -> t_val t = [] -> b = [] /\ t_type t = T_eof /\ r_rest r = [];
+  lo_noerr : r_err r = None ->
+             r_rest r = [] /\ r_toks r = r_all r /\ exists init p, r_all r = init ++ [mkTok T_eof [] p];
+  lo_err : forall e, r_err r = Some e ->
+           (exists init, r_toks r = init ++ [e_tok e]) /\ e_outer e = t_pos (e_tok e) }.
